@@ -131,6 +131,8 @@ pub struct Rewriter<'a> {
     pub drop_fn: String,
     pub user_call_ret: Option<String>,
     pub user_call_try: bool,
+    /// fn name -> generic argument added to calls that have none (type information lost by R16 truncation)
+    pub turbofish: HashMap<String, String>,
     /// receiver identifier -> (method -> new name): e.g. the result channel's `send`
     pub rename_methods_on: HashMap<String, HashMap<String, String>>,
     /// crate-local async fns: `f(args).await` is the sequential call `f(args, Tracked(w))`
@@ -467,6 +469,15 @@ impl<'a> VisitMut for Rewriter<'a> {
             }
         }
         if let Expr::Call(c) = e {
+            if let Expr::Path(p) = &mut *c.func {
+                if let Some(last) = p.path.segments.last_mut() {
+                    if let (Some(t), true) = (self.turbofish.get(&last.ident.to_string()), matches!(last.arguments, PathArguments::None)) {
+                        let ty: Type = syn::parse_str(t).unwrap();
+                        last.arguments = PathArguments::AngleBracketed(parse_quote! { ::<#ty> });
+                        self.fired.push(format!("R16-type-hint-{}", last.ident));
+                    }
+                }
+            }
             if let Expr::Path(p) = &*c.func {
                 if let Some(last) = p.path.segments.last() {
                     let n = last.ident.to_string();
@@ -505,6 +516,47 @@ impl<'a> VisitMut for Rewriter<'a> {
             }
         }
         visit_mut::visit_expr_mut(self, e);
+    }
+
+    fn visit_block_mut(&mut self, b: &mut Block) {
+        // R18: `let &mut S { f: _, ref a, ref mut b, .. } = x;` ⇒ `let a = &x.a; let b = &mut x.b;`
+        let old = std::mem::take(&mut b.stmts);
+        for st in old.into_iter() {
+            let mut replaced = false;
+            if let Stmt::Local(l) = &st {
+                if let (Pat::Reference(r), Some(init)) = (&l.pat, &l.init) {
+                    if let (Pat::Struct(ps), Expr::Path(_)) = (&*r.pat, &*init.expr) {
+                        let x = &init.expr;
+                        let mut outs: Vec<Stmt> = vec![];
+                        let mut ok = true;
+                        for f in ps.fields.iter() {
+                            let member = &f.member;
+                            match &*f.pat {
+                                Pat::Wild(_) => {}
+                                Pat::Ident(pi) if pi.by_ref.is_some() && pi.subpat.is_none() => {
+                                    let nm = &pi.ident;
+                                    if pi.mutability.is_some() {
+                                        outs.push(parse_quote! { let #nm = &mut #x.#member; });
+                                    } else {
+                                        outs.push(parse_quote! { let #nm = &#x.#member; });
+                                    }
+                                }
+                                _ => ok = false,
+                            }
+                        }
+                        if ok {
+                            self.fired.push("R18-ref-struct-pattern".into());
+                            b.stmts.extend(outs);
+                            replaced = true;
+                        }
+                    }
+                }
+            }
+            if !replaced {
+                b.stmts.push(st);
+            }
+        }
+        visit_mut::visit_block_mut(self, b);
     }
 
     fn visit_stmt_mut(&mut self, st: &mut Stmt) {
@@ -584,6 +636,11 @@ pub fn apply_all(block: &mut Block, item: &Value, fired: &mut Vec<String>, name:
         async_fns: list("async_fns"),
         user_call_ret: item.get("user_call_ret").and_then(|x| x.as_str()).map(String::from),
         user_call_try: item.get("user_call_try").and_then(|x| x.as_bool()).unwrap_or(false),
+        turbofish: item
+            .get("turbofish")
+            .and_then(|x| x.as_object())
+            .map(|o| o.iter().filter_map(|(k, v)| v.as_str().map(|v| (k.clone(), v.to_string()))).collect())
+            .unwrap_or_default(),
         rename_methods_on: item
             .get("rename_methods_on")
             .and_then(|x| x.as_object())
